@@ -3,6 +3,7 @@
 pub mod c01;
 pub mod c02;
 pub mod c06;
+pub mod c07;
 pub mod c08;
 pub mod c09;
 pub mod c10;
@@ -12,6 +13,7 @@ pub mod c16;
 pub mod chopper;
 pub mod endpoints;
 pub mod nodes;
+pub mod pipe;
 pub mod procfs;
 pub mod tcpflows;
 pub mod udpfwd;
